@@ -425,6 +425,52 @@ Proof.
     exists (e1 ++ e2). rewrite E2, E1. now rewrite app_assoc.
 Qed.
 
+(* ================================================================== "gates applied after an evaluation are included in the next one" *)
+(* The content returned by the LAST evaluation of a history equals the content returned by evaluating once after the same
+   operations with every earlier evaluation erased. *)
+Theorem l_eval_then_extend h s s1 outs :
+  lexec s (h ++ [OEval M]) = Ok (s1, outs) ->
+  exists s2 c, lexec s (erase_evals M h ++ [OEval M]) = Ok (s2, [c]) /\ last outs c = c /\ outs <> [] /\ c = l_content M s2.
+Proof.
+  unfold Builders.lexec. rewrite !exec_app.
+  destruct (exec M lst _ lstep s h) as [[sa oa]|e] eqn:E; [|discriminate].
+  fold (lexec s h) in E. pose proof (l_eval_erasure _ _ _ _ E) as E'. unfold Builders.lexec in E'. rewrite E'. cbn. intros H. injection H as <- <-.
+  exists sa, (l_mplist M sa). rewrite last_last. repeat split; auto. destruct oa; discriminate.
+Qed.
+
+Theorem b_eval_then_extend h s s1 outs :
+  bexec s (h ++ [OEval M]) = Ok (s1, outs) ->
+  exists s2 c, bexec s (erase_evals M h ++ [OEval M]) = Ok (s2, [c]) /\ last outs c = c /\ outs <> [] /\ c = b_content M s2.
+Proof.
+  unfold Builders.bexec. rewrite !exec_app.
+  destruct (exec M bst _ bstep s h) as [[sa oa]|e] eqn:E; [|discriminate].
+  fold (bexec s h) in E. destruct (b_eval_erasure _ _ _ _ E) as (sa' & E' & (Hn & Hl & Hp & Hc)). unfold Builders.bexec in E'. rewrite E'.
+  cbn [exec Builders.bstep rbind rmap fst snd].
+  assert (Ev : forall x, exists x1, b_eval M x = Ok (b_content M x, x1) /\ b_content M x1 = b_content M x).
+  { intros x. unfold b_eval, b_content. destruct (b_items M x) eqn:Ei.
+    - eexists; split; [reflexivity|]. now rewrite Ei.
+    - eexists; split; [reflexivity|]. cbn [b_items]. now rewrite map_norm_idem. }
+  destruct (Ev sa) as (x1 & -> & _). destruct (Ev sa') as (x1' & -> & Hx). cbn. intros H. injection H as <- <-.
+  exists x1', (b_content M sa'). rewrite Hc, last_last. repeat split; auto. destruct oa; discriminate.
+Qed.
+
+Theorem g_eval_then_extend h s s1 outs :
+  gexec s (h ++ [OEval M]) = Ok (s1, outs) ->
+  exists s2 c, gexec s (erase_evals M h ++ [OEval M]) = Ok (s2, [c]) /\ last outs c = c /\ outs <> [] /\ c = g_content M s2.
+Proof.
+  unfold Builders.gexec. rewrite !exec_app.
+  destruct (exec M gst _ gstep s h) as [[sa oa]|e] eqn:E; [|discriminate].
+  fold (gexec s h) in E. destruct (g_eval_erasure _ _ _ _ E) as (sa' & E' & Hcore & Hc). unfold Builders.gexec in E'. rewrite E'.
+  cbn [exec Builders.gstep rbind rmap fst snd].
+  destruct (g_eval M sa) as [[c1 x1]|e1] eqn:G1; cbn; [|discriminate].
+  destruct (gstep_core sa sa' (OEval M) x1 (Some c1) Hcore) as (x1' & G2 & Hcore').
+  { cbn. rewrite G1. reflexivity. }
+  cbn in G2. destruct (g_eval M sa') as [[c2 x2]|e2] eqn:G2'; cbn in G2; [|discriminate]. injection G2 as -> ->.
+  intros H. injection H as <- <-. exists x1', c1. rewrite last_last. repeat split; auto.
+  - destruct oa; discriminate.
+  - destruct (g_eval_repeatable _ _ _ G2') as (_ & -> & E2 & _). now rewrite E2.
+Qed.
+
 (* ================================================================== the shots loop *)
 Section ShotsProofs.
 Variables (G call : Type) (gs_step : G -> call -> M * G).
